@@ -2,4 +2,5 @@ pub mod util;
 pub mod extract;
 pub mod proj;
 pub mod report;
+pub mod gen_types;
 pub mod props;
